@@ -137,6 +137,18 @@ def run_replay_driver(driver, payload, timeout=600):
     return dict(reproduced=False, error="no replay result", stdout=p.stdout[-2000:], stderr=p.stderr[-2000:])
 
 
+def _driver_for(mod, pid, full_name):
+    rel = full_name.split(f"{pid}.", 1)[1]
+    table = getattr(mod, "REPLAY", {})
+    if rel in table:
+        return table[rel]
+    best = None
+    for pref, d in table.items():
+        if rel.startswith(pref) and (best is None or len(pref) > len(best[0])):
+            best = (pref, d)
+    return best[1] if best else None
+
+
 def check_property(pid, tier="quick", seed=0, jobs=None):
     t0 = time.time()
     modname = f"contracts.{pid}"
@@ -232,11 +244,7 @@ def check_property(pid, tier="quick", seed=0, jobs=None):
         payload = dict(property=pid, obligation=o["name"], task=o["task"], verdict="failed", backend=o["backend"],
                        verifier_output=dict(goal=o.get("detail"), model=o.get("model"), path=o["extra"].get("path")),
                        smt2=o["extra"].get("smt2", "")[:100000])
-        driver = getattr(mod, "REPLAY", {}).get(o["name"].split(f"{pid}.", 1)[1])
-        if driver is None:
-            for pref, d in getattr(mod, "REPLAY", {}).items():
-                if o["name"].split(f"{pid}.", 1)[1].startswith(pref):
-                    driver = d
+        driver = _driver_for(mod, pid, o["name"])
         rep = None
         if driver:
             rep = run_replay_driver(driver, payload)
@@ -252,6 +260,32 @@ def check_property(pid, tier="quick", seed=0, jobs=None):
             lines.append(f"  replayed on the real code: {str(rep.get('witness'))[:300]}")
 
     known_names = {o["name"] for o in known_hit}
+    # an UNDECIDED obligation is not a violation - unless the native replay finds a real failing
+    # input for exactly that clause (sound: the witness is replayed on the real code)
+    still_undecided = []
+    tried = 0
+    for o in undecided:
+        driver = _driver_for(mod, pid, o["name"])
+        if o["name"] in open_known or not driver or tried >= 6:
+            still_undecided.append(o)
+            continue
+        tried += 1
+        payload = dict(property=pid, obligation=o["name"], task=o["task"], verdict="undecided", backend=o["backend"],
+                       verifier_output=dict(goal=o.get("detail"), model=o.get("model"), path=None), smt2="")
+        rep = run_replay_driver(driver, payload)
+        if rep and rep.get("reproduced"):
+            os.makedirs(replay_dir, exist_ok=True)
+            rp = os.path.join(replay_dir, o["name"].replace("/", "_") + ".json")
+            payload["replay"], payload["replay_driver"] = rep, driver
+            with open(rp, "w") as f:
+                json.dump(payload, f, indent=1, default=str)
+            violations.append(o)
+            lines.append(f"VIOLATION property={pid} replay={os.path.relpath(rp, VERIF)}")
+            lines.append(f"  obligation left undecided by the solvers, violated on the real code: {o['name']}")
+            lines.append(f"  replayed on the real code: {str(rep.get('witness'))[:300]}")
+        else:
+            still_undecided.append(o)
+    undecided = still_undecided
     n_ob = len([o for o in obligations if o["name"] not in known_names])
     n_dis = sum(1 for o in obligations if o["verdict"] == "discharged")
     level = getattr(mod, "LEVEL", "proof")
